@@ -338,9 +338,9 @@ def second(items, n):
     return list(zip(sel, rs))
 
 
-REPLAY = {'quick': [('ab', 2, 40), ('a_b', 2, 30)],
-          'thorough': [('ab', 2, None), ('a_b', 2, None), ('abc', 2, 500),
-                       ('ab_c', 3, 400)]}
+REPLAY = {'quick': [('ab', 2, 40, 1), ('a_b', 2, 30, 0)],
+          'thorough': [('ab', 2, None, 1), ('a_b', 2, None, 0),
+                       ('abc', 2, 500, 1), ('ab_c', 3, 400, 0)]}
 
 
 def main():
